@@ -3,15 +3,17 @@
 /tmp/seed/out_<ID>/<k> into /verif/seeded/<ID>-<k>/ with a meta.json"""
 import json, os, shutil, sys, re
 ID, k, needs, detected, history = sys.argv[1:6]
-src = "/tmp/seed/out_%s/%s" % (ID, k)
-dst = "/verif/seeded/%s-%s" % (ID, k)
+srcroot = sys.argv[6] if len(sys.argv) > 6 else "out"
+dstk = sys.argv[7] if len(sys.argv) > 7 else k
+src = "/tmp/seed/%s_%s/%s" % (srcroot, ID, k)
+dst = "/verif/seeded/%s-%s" % (ID, dstk)
 os.makedirs(dst, exist_ok=True)
 for f in ("patch.diff", "demo_test.rs", "notes.md"):
     if os.path.exists(os.path.join(src, f)):
         shutil.copy(os.path.join(src, f), os.path.join(dst, f))
 log = open(os.path.join(src, "confirm.log")).read() if os.path.exists(os.path.join(src, "confirm.log")) else ""
 marks = re.findall(r"^(DEMO_\w+ rc=\d+|SUITE_WITH_CHANGE rc=\d+|test result: .*)$", log, re.M)
-prop = json.load(open("/tmp/seed/out_%s/property.json" % ID))
+prop = json.load(open("/tmp/seed/%s_%s/property.json" % (srcroot, ID)))
 feat = "--features verif " if "verif_hooks" in open(os.path.join(src, "demo_test.rs")).read() else ""
 meta = {
     "property": ID,
@@ -19,7 +21,7 @@ meta = {
     "origin": "written by an independent sub-agent that saw only the property text and a private worktree of /repo",
     "needs_to_manifest": needs,
     "confirmed_here": {
-        "worktree": "scratch git worktree of /repo HEAD c3d034d under /tmp (removed afterwards)",
+        "worktree": "scratch git worktree of /repo under /tmp (removed afterwards)",
         "commands": [
             "cp demo_test.rs tests/ && cargo test --offline %s--test demo_test   (without the change: passes)" % feat,
             "git apply patch.diff && cargo test --offline %s--test demo_test     (with the change: fails)" % feat,
